@@ -581,16 +581,21 @@ Proof.
       split; auto. eapply perm_trans; [apply P|exact P'].
 Qed.
 
+Lemma Inv_init : forall x r,
+  Inv (x :: r) [(0, length (x :: r) - 1)].
+Proof.
+  intros x r. set (l := x :: r). split; [|split].
+  - constructor; [|constructor]. unfold okslice, l; simpl; lia.
+  - simpl; split; auto; intros t [].
+  - intros i j Hij H. exfalso.
+    apply (H (0, length l - 1)); [left; reflexivity| |]; unfold insl; cbn [fst snd]; lia.
+Qed.
+
 Lemma quicksort_perm : forall l : list Z, Permutation l (quicksort l).
 Proof.
   intros [|x r]; [constructor|].
-  unfold quicksort. set (l := x :: r).
-  apply qloop_correct.
-  - split; [|split].
-    + constructor; [|constructor]. unfold okslice, l; simpl; lia.
-    + simpl; split; auto. intros t [].
-    + intros i j Hij H. exfalso. apply (H (0, length l - 1)); unfold insl; simpl; auto; lia.
-  - unfold l; simpl; lia.
+  unfold quicksort.
+  apply qloop_correct; [apply Inv_init|]. simpl; lia.
 Qed.
 
 Lemma quicksort_ascending : forall l : list Z, ascending (quicksort l).
@@ -599,10 +604,7 @@ Proof.
   unfold quicksort. set (l := x :: r).
   apply nth_sorted. intros i j Hij.
   refine (proj2 (qloop_correct (S (length l)) l 0 (length l - 1) [] _ _) i j Hij _).
-  - split; [|split].
-    + constructor; [|constructor]. unfold okslice, l; simpl; lia.
-    + simpl; split; auto. intros t [].
-    + intros i' j' Hij' H. exfalso. apply (H (0, length l - 1)); unfold insl; simpl; auto; lia.
+  - apply Inv_init.
   - unfold l; simpl; lia.
   - intros s [].
 Qed.
